@@ -17,7 +17,7 @@ LEVEL = ("Static structural conditions on the adaptation schedule: the estimator
          " Added: only switch() removes elements from the estimation-window deques (R2); estimator lanes are judged on the inlined form (R4)."
          " Added (round 4): the transformation is frozen in the final window on every path (R8 = C06-R3 analysis, path-sensitive through phase enums and sub-structs of the strategy)."
          " Added (round 5): the step-size search re-run at the first transformation change restarts the estimator from what it found (R9 = C07-R5/R6 analysis)."
-         " Added (round 6): an update that is due happens (R10 = C08-R2 converse clause); every trajectory starts at index 0, resampled momentum or not (R11 = C02-R7 clause).")
+         " Added (round 6): an update that is due happens (R10 = C08-R2 converse clause); every trajectory starts at index 0, resampled momentum or not (R11 = C02-R7 clause). adapt() reports a change only when the transformation changed: its `true` is the mutator's own answer or follows a mutator that increments the id on all paths (R12; decided F20).")
 EXPLANATION = "Control-dependence edge relations and value provenance on the MIR of the adapt strategy and of the two estimator strategies; field-writer inventory."
 TRUSTED = ["rustc nightly MIR", "nutsfacts extractor", "rules/c09.py, rules/rel.py"]
 TECHNIQUE = "static analysis: control-dependence edge relations + value provenance + field-writer inventory on MIR"
@@ -460,6 +460,89 @@ def r7(F, R):
 
 
 
+
+def _bump_blocks(b):
+    out = []
+    for bi, blk in enumerate(b.blocks):
+        if blk["cleanup"]:
+            continue
+        for st in blk["stmts"]:
+            if st["k"] == "assign" and st["pl"]["p"]:
+                last = [e for e in st["pl"]["p"] if isinstance(e, dict) and "f" in e]
+                if last and last[-1].get("n") == "id" and "Add" in vt_str(b.rvalue_value(st["rv"])):
+                    out.append(bi)
+    return out
+
+
+def always_changes(F, b, depth=0, seen=()):
+    """Does every path through b increment a transformation id (directly, or in a callee that always does)?"""
+    if b is None or not b.blocks or depth > 4 or b.path in seen:
+        return False
+    marks = set(_bump_blocks(b))
+    for bb, t in b.calls():
+        c = t["callee"]
+        cb = F.bodies.get(c.get("resolved") or c.get("path"))
+        if cb is not None and cb.kind != "closure" and always_changes(F, cb, depth + 1, seen + (b.path,)):
+            marks.add(bb)
+    if not marks:
+        return False
+    rets = {x for x, blk in enumerate(b.blocks) if blk["term"]["k"] == "return"}
+    return not (rets & b.reach_from(0, avoid=sorted(marks)))
+
+
+def r12(F, R):
+    R.rule("C09-R12", "adapt() says `changed` only when the transformation did change: in every MassMatrixAdaptStrategy::adapt a returned `true` is either a constant "
+                      "on a path through a mutator that increments the transformation id on all of its paths, or the mutator's own answer. GlobalStrategy re-runs "
+                      "the step-size search at the first `true` and never again: an estimate that the transformation rejected (non-finite window, failed "
+                      "decomposition) but that is reported as a change spends the one re-run on an unchanged transformation, and the first real change goes without")
+    n = 0
+    for b in F.trait_method_impls("MassMatrixAdaptStrategy", "adapt"):
+        n += 1
+        key = b.path + ":changed-means-changed"
+        site = "%s @%s" % (b.path, b.loc())
+        sure = set()
+        unsure = []
+        for bb, t in b.calls():
+            c = t["callee"]
+            cb = F.bodies.get(c.get("resolved") or c.get("path"))
+            if cb is None or cb.kind == "closure":
+                continue
+            if always_changes(F, cb):
+                sure.add(bb)
+            elif _reaches_bump(F, cb):
+                unsure.append((bb, t))
+        trues = []
+        for bi, blk in enumerate(b.blocks):
+            if blk["cleanup"]:
+                continue
+            for st in blk["stmts"]:
+                if st["k"] == "assign" and st["pl"]["l"] == 0 and not st["pl"]["p"] and st["rv"]["k"] == "use" and st["rv"]["op"].get("k") == "const" \
+                        and str((st["rv"]["op"].get("const") or {}).get("v")) == "true":
+                    trues.append(bi)
+        from_call = [bb for bb, t in b.calls() if t["dest"]["l"] == 0 and not t["dest"]["p"]]
+        bad = [x for x in trues if x in b.reach_from(0, avoid=sorted(sure))]
+        if not sure and not unsure:
+            R.bad("C09-R12", key, site, "adapt() calls no transformation mutator")
+        elif bad:
+            who = ", ".join(sorted({t["callee"].get("name") or "?" for _bb, t in unsure})) or "no mutator"
+            R.bad("C09-R12", key, site, "adapt() returns the constant `true` on a path whose only mutator (%s) can return without changing the transformation "
+                  "(an early return before the id increment): a rejected estimate is reported as a change" % who)
+        else:
+            R.ok("C09-R12", key, site, "`true` only after a mutator that always increments the id" if trues else "the result is the mutator's own answer (%d call(s))" % len(from_call))
+    R.floor("C09-R12", 2)
+
+
+def _reaches_bump(F, b, depth=0, seen=()):
+    if b is None or not b.blocks or depth > 4 or b.path in seen:
+        return False
+    if _bump_blocks(b):
+        return True
+    for _bb, t in b.calls():
+        cb = F.bodies.get(t["callee"].get("resolved") or t["callee"].get("path"))
+        if cb is not None and cb.kind != "closure" and _reaches_bump(F, cb, depth + 1, seen + (b.path,)):
+            return True
+    return False
+
 def run(F, R, config=None):
     r1(F, R)
     r2(F, R)
@@ -468,6 +551,7 @@ def run(F, R, config=None):
     r5(F, R)
     r6(F, R)
     r7(F, R)
+    r12(F, R)
     # "in the final window only the step size adapts": every transformation mutator in adapt() runs under draw < <start of the final window>
     from . import c06
     K.borrow_rule(R, lambda sub: c06.r3(F, sub), "C09-R8", "in the final step-size window the transformation is frozen: every transformation mutator called from adapt() "
